@@ -954,8 +954,7 @@ Proof.
   revert m'. induction m as [|[k' [v' virt']] m IH]; intros m' H; cbn [sub_insert] in H.
   - injection H as <-. cbn [vm_at fst snd]. lra.
   - destruct (str_compare k k') eqn:E.
-    + destruct (Bool.eqb virt virt'); [|discriminate].
-      destruct (v_add false v' v) as [s|] eqn:A; cbn [bind] in H; [|discriminate].
+    + destruct (v_add false v' v) as [s|] eqn:A; cbn [bind] in H; [|discriminate].
       injection H as <-. cbn [vm_at fst snd].
       pose proof (v_add_exact _ _ _ _ c A) as D.
       apply str_compare_eq in E. subst k'.
@@ -971,8 +970,7 @@ Proof.
   revert m'. induction m as [|[k' [v' virt']] m IH]; intros m' H; cbn [sub_insert] in H.
   - injection H as <-. cbn [vm_total fst snd]. lra.
   - destruct (str_compare k k') eqn:E.
-    + destruct (Bool.eqb virt virt'); [|discriminate].
-      destruct (v_add false v' v) as [s|] eqn:A; cbn [bind] in H; [|discriminate].
+    + destruct (v_add false v' v) as [s|] eqn:A; cbn [bind] in H; [|discriminate].
       injection H as <-. cbn [vm_total fst snd].
       pose proof (v_add_exact _ _ _ _ c A) as D. lra.
     + injection H as <-. cbn [vm_total fst snd]. lra.
@@ -988,8 +986,7 @@ Proof.
   revert m'. induction m as [|[k' [v' virt']] m IH]; intros m' H; cbn [sub_insert] in H.
   - injection H as <-. cbn. split; [intros; intuition congruence|]. intros _. constructor; constructor.
   - destruct (str_compare k k') eqn:E.
-    + destruct (Bool.eqb virt virt'); [|discriminate].
-      destruct (v_add false v' v) as [s|] eqn:A; cbn [bind] in H; [|discriminate].
+    + destruct (v_add false v' v) as [s|] eqn:A; cbn [bind] in H; [|discriminate].
       injection H as <-. apply str_compare_eq in E. subst k'. cbn [map fst]. split.
       * intros k0. cbn [In]. intuition.
       * trivial.
@@ -1008,7 +1005,7 @@ Proof.
 Qed.
 
 Lemma post_amount_ok p a : post_amount p = Ok a -> a = pamt p.
-Proof. unfold post_amount. destruct (pamt p); try discriminate. now intros [= <-]. Qed.
+Proof. unfold post_amount. destruct (pamt p); try discriminate; now intros [= <-]. Qed.
 
 Lemma sub_feed_spec l : forall m m',
   sub_feed m l = Ok m' ->
@@ -1866,87 +1863,28 @@ Proof.
   split; [exact P|]. intros cm. rewrite (calc_grand_total s r cm C). symmetry. now apply sum_den_perm.
 Qed.
 
-(* ---- subtotal_posts fed by another subtotalling handler (resubtotal) ----
-   On postings that all carry a plain amount (no POST_EXT_COMPOUND posting among them; the
-   generated postings are never POST_VIRTUAL in the model) it is subtotal_posts as before. *)
-Definition plain_post (p : post) : Prop := (exists a, pamt p = VAmt a) /\ pvirt p = false.
-
-Definition sub2_conv (m : list (str * sub_state)) : values_map :=
-  map (fun e => (fst e, (sub2_value (snd e), false))) m.
-
-Definition sub2_proper (m : list (str * sub_state)) : Prop :=
-  Forall (fun e => exists v, snd e = SVal v) m.
-
-Lemma sub2_insert_sim k p m m' :
-  plain_post p -> sub2_proper m -> sub2_insert k p m = Ok m' ->
-  sub2_proper m' /\
-  exists a, pamt p = VAmt a /\ sub_insert k (VAmt a) false (sub2_conv m) = Ok (sub2_conv m').
-Proof.
-  intros [[a Ha] Hv]. revert m'. induction m as [|[k' s] m IH]; intros m' P H; cbn [sub2_insert] in H.
-  - injection H as <-. unfold sub2_new. rewrite Ha. split.
-    + constructor; [eexists; reflexivity|constructor].
-    + exists a. split; [first [exact Ha|reflexivity]|]. reflexivity.
-  - inversion P as [|? ? [v Hs] P']; subst. cbn [snd] in Hs. subst s.
-    cbn [sub2_conv map sub_insert fst snd sub2_value].
-    destruct (str_compare k k') eqn:C.
-    + unfold sub2_add in H. rewrite Ha in H.
-      destruct (v_add false v (VAmt a)) as [r|] eqn:V; cbn [bind] in H; [|discriminate].
-      injection H as <-. split.
-      * constructor; [eexists; reflexivity|exact P'].
-      * exists a. split; [first [exact Ha|reflexivity]|]. cbn [Bool.eqb]. rewrite V. cbn [bind]. reflexivity.
-    + injection H as <-. unfold sub2_new. rewrite Ha. split.
-      * constructor; [eexists; reflexivity|]. constructor; [eexists; reflexivity|exact P'].
-      * exists a. split; [first [exact Ha|reflexivity]|]. reflexivity.
-    + destruct (sub2_insert k p m) as [r|] eqn:R; cbn [bind] in H; [|discriminate].
-      injection H as <-. destruct (IH r P' eq_refl) as (Pr & a' & Ha' & S).
-      rewrite Ha in Ha'. injection Ha' as <-. split.
-      * constructor; [eexists; reflexivity|exact Pr].
-      * exists a. split; [first [exact Ha|reflexivity]|]. fold (sub2_conv m). rewrite S. cbn [bind]. reflexivity.
-Qed.
-
-Lemma sub2_feed_sim l : forall m m',
-  Forall plain_post l -> sub2_proper m -> sub2_feed m l = Ok m' ->
-  sub_feed (sub2_conv m) l = Ok (sub2_conv m').
-Proof.
-  induction l as [|p l IH]; intros m m' F P H; cbn [sub2_feed sub_feed] in *.
-  - injection H as <-. reflexivity.
-  - inversion F as [|? ? Fp Fl]; subst.
-    destruct (sub2_insert (pacct p) p m) as [m1|] eqn:I; cbn [bind] in H; [|discriminate].
-    destruct (sub2_insert_sim _ _ _ _ Fp P I) as (P1 & a & Ha & S).
-    unfold post_amount. rewrite Ha. cbn [bind]. rewrite (proj2 Fp), S. cbn [bind].
-    exact (IH m1 m' Fl P1 H).
-Qed.
-
-(* resubtotal on plain postings reports the rows of subtotal_posts: same accounts, same values *)
-Theorem resubtotal_plain l rows :
-  Forall plain_post l -> resubtotal l = Ok rows ->
-  exists rows', subtotal l = Ok rows' /\
-    map pacct rows = map pacct rows' /\ map pamt rows = map pamt rows'.
-Proof.
-  intros F. unfold resubtotal, subtotal, subtotal_group. destruct l as [|p0 l0] eqn:E.
-  - intros [= <-]. exists []. repeat split.
-  - rewrite <- E in *. clear E p0 l0.
-    destruct (sub2_feed [] l) as [m|] eqn:S; cbn [bind]; [|discriminate].
-    intros [= <-]. pose proof (sub2_feed_sim l [] m F (Forall_nil _) S) as S'.
-    change (sub2_conv []) with (@nil (str * (value * bool))) in S'. rewrite S'. cbn [bind].
-    eexists. split; [reflexivity|]. unfold sub_report, sub2_conv. rewrite !map_map. cbn [pacct pamt fst snd].
-    split; reflexivity.
-Qed.
-
-Lemma sum_den_map_pamt l l' c : map pamt l = map pamt l' -> (sum_den l c == sum_den l' c)%Q.
-Proof.
-  revert l'. induction l as [|p l IH]; intros [|p' l'] H; try discriminate; cbn [sum_den]; [lra|].
-  cbn [map] in H. injection H as Hp Hl. rewrite Hp, (IH l' Hl). lra.
-Qed.
-
-Theorem resubtotal_plain_sums l rows :
-  Forall plain_post l -> resubtotal l = Ok rows ->
+(* ---- subtotal_posts fed by another subtotalling handler (resubtotal): subtotal_posts once more ---- *)
+Theorem resubtotal_sums l rows :
+  resubtotal l = Ok rows ->
   StronglySorted str_lt (map pacct rows) /\
   (forall a, In a (map pacct rows) <-> exists p, In p l /\ pacct p = a) /\
+  (forall r c, In r rows -> (den (pamt r) c == sum_den (filter (acct_is (pacct r)) l) c)%Q) /\
   (forall c, (sum_den rows c == sum_den l c)%Q).
+Proof. apply subtotal_group_sums. Qed.
+
+(* --by-payee --subtotal, --dow --subtotal: the grand total is the plain register's *)
+Theorem by_payee_subtotal_total l rows c :
+  stage_group GByPayeeSub l = Ok rows -> (sum_den rows c == sum_den l c)%Q.
 Proof.
-  intros F H. destruct (resubtotal_plain l rows F H) as (rows' & S & A & V).
-  destruct (subtotal_sums l rows' S) as (B1 & B2 & _ & B4).
-  rewrite A. split; [exact B1|]. split; [exact B2|].
-  intros c. rewrite (sum_den_map_pamt rows rows' c V). apply B4.
+  cbn [stage_group]. destruct (by_payee l) as [r|] eqn:B; cbn [bind]; [|discriminate]. intros H.
+  destruct (resubtotal_sums r rows H) as (_ & _ & _ & T). rewrite T.
+  destruct (by_payee_mode_sums _ l r B) as (m & rr & _ & _ & _ & _ & _ & S). apply S.
+Qed.
+
+Theorem dow_subtotal_total l rows c :
+  stage_group GDowSub l = Ok rows -> (sum_den rows c == sum_den l c)%Q.
+Proof.
+  cbn [stage_group]. destruct (day_of_week_posts l) as [r|] eqn:B; cbn [bind]; [|discriminate]. intros H.
+  destruct (resubtotal_sums r rows H) as (_ & _ & _ & T). rewrite T.
+  destruct (dow_sums l r B) as (rr & _ & _ & _ & S). apply S.
 Qed.
